@@ -4,6 +4,7 @@
 //! operand bounds, x+y / x-t / x must lie inside the result bounds.
 use num_bigint::BigInt;
 use radix_common::prelude::*;
+use radix_transactions::manifest::static_resource_movements::{ResourceBounds, ResourceTakeAmount, StaticResourceMovementsError};
 use serde_json::json;
 use vh_common::*;
 
@@ -32,6 +33,61 @@ fn sample(rng: &mut Rng, l: &LowerBound, u: &UpperBound) -> Option<Decimal> {
     let hi = match u { UpperBound::Unbounded => lo.checked_add(dec(5 * scale())).unwrap_or(Decimal::MAX), UpperBound::Inclusive(d) => *d };
     if lo > hi { return None; }
     Some(match rng.below(3) { 0 => lo, 1 => hi, _ => { let span = hi - lo; let k = rng.below(1000) as i128; lo + (span / Decimal::from(1000u32)) * Decimal::from(k as u32) } })
+}
+
+
+// ---- id-set part: ResourceBounds ------------------------------------------------------------------------
+type Ids = Vec<u64>;
+fn idset(ids: &Ids) -> IndexSet<NonFungibleLocalId> { ids.iter().map(|i| NonFungibleLocalId::integer(*i)).collect() }
+fn ids_of(s: &IndexSet<NonFungibleLocalId>) -> Ids { s.iter().map(|i| match i { NonFungibleLocalId::Integer(x) => x.value(), _ => u64::MAX }).collect() }
+fn ids_coq(ids: &Ids) -> String { coq_list(ids.iter().map(|i| format!("{}%N", i))) }
+fn gen_ids(rng: &mut Rng, universe: &[u64], max: usize) -> Ids { let mut v = universe.to_vec(); rng.shuffle(&mut v); let n = rng.usize_below(max.min(v.len()) + 1); v.truncate(n); v }
+/// a valid non-fungible general constraint over the given id universe
+fn gen_general(rng: &mut Rng, universe: &[u64]) -> GeneralResourceConstraint {
+    loop {
+        let any = rng.chance(2, 5);
+        let allow = gen_ids(rng, universe, 6);
+        let required = if any { gen_ids(rng, universe, 3) } else { let mut a = allow.clone(); rng.shuffle(&mut a); let n = rng.usize_below(a.len().min(3) + 1); a.truncate(n); a };
+        let cap = if any { 7 } else { allow.len() as i128 };
+        let lo = rng.below(cap as u64 + 1) as i128;
+        let hi = lo.max(required.len() as i128) + rng.below(3) as i128;
+        let g = GeneralResourceConstraint {
+            required_ids: idset(&required),
+            lower_bound: if rng.chance(1, 6) { LowerBound::NonZero } else { LowerBound::Inclusive(dec(lo * scale())) },
+            upper_bound: if rng.chance(1, 4) { UpperBound::Unbounded } else { UpperBound::Inclusive(dec(hi * scale())) },
+            allowed_ids: if any { AllowedIds::Any } else { AllowedIds::Allowlist(idset(&allow)) },
+        };
+        if g.is_valid_for_non_fungible_use() { return g; }
+    }
+}
+fn general_coq(r: &IndexSet<NonFungibleLocalId>, l: &LowerBound, u: &UpperBound, a: &AllowedIds) -> String {
+    format!("(mkGeneral {} {} {} {})", ids_coq(&ids_of(r)), lc(l), uc(u), match a { AllowedIds::Any => "AnyIds".to_string(), AllowedIds::Allowlist(x) => format!("(Allowlist {})", ids_coq(&ids_of(x))) })
+}
+fn bounds_coq(b: &ResourceBounds) -> String { general_coq(b.required_ids(), &b.lower_bound(), &b.upper_bound(), b.allowed_ids()) }
+fn gres_coq(r: &Result<Result<ResourceBounds, StaticResourceMovementsError>, String>) -> String {
+    match r {
+        Err(_) => "GPanic".into(),
+        Ok(Ok(b)) => format!("(GOk {})", bounds_coq(b)),
+        Ok(Err(e)) => format!("(GErr {})", match e {
+            StaticResourceMovementsError::DecimalOverflow => "GEOverflow", StaticResourceMovementsError::DuplicateNonFungibleId => "GEDuplicateId",
+            StaticResourceMovementsError::TakeCannotBeSatisfied => "GETakeCannotBeSatisfied", StaticResourceMovementsError::DecimalAmountIsNegative => "GENegativeAmount",
+            StaticResourceMovementsError::AssertionCannotBeSatisfied => "GEAssertionCannotBeSatisfied", _ => "GEOverflow (* unexpected *)" }),
+    }
+}
+fn as_constraint(b: &ResourceBounds) -> GeneralResourceConstraint {
+    GeneralResourceConstraint { required_ids: b.required_ids().clone(), lower_bound: b.lower_bound(), upper_bound: b.upper_bound(), allowed_ids: b.allowed_ids().clone() }
+}
+/// a concrete balance inside the bounds (required ids padded from the allow-list / with fresh ids)
+fn witness(rng: &mut Rng, b: &ResourceBounds, fresh_base: u64) -> Option<Ids> {
+    let g = as_constraint(b);
+    let lo = match g.lower_bound { LowerBound::NonZero => 1usize, LowerBound::Inclusive(d) => (big(&d) / BigInt::from(scale())).to_string().parse().ok()? };
+    let hi = match g.upper_bound { UpperBound::Unbounded => lo + 3, UpperBound::Inclusive(d) => (big(&d) / BigInt::from(scale())).to_string().parse().ok()? };
+    let mut ids = ids_of(&g.required_ids);
+    let want = lo.max(ids.len()) + if hi > lo.max(ids.len()) { rng.usize_below(hi - lo.max(ids.len()) + 1) } else { 0 };
+    if want > 40 { return None; }
+    let pool: Vec<u64> = match &g.allowed_ids { AllowedIds::Allowlist(a) => ids_of(a), AllowedIds::Any => (fresh_base..fresh_base + 50).collect() };
+    for p in pool { if ids.len() >= want { break; } if !ids.contains(&p) { ids.push(p); } }
+    if g.validate_non_fungible_ids(&idset(&ids)).is_ok() { Some(ids) } else { None }
 }
 
 fn main() {
@@ -75,14 +131,67 @@ fn main() {
         }
         let lres = |r: &Option<LowerBound>| match r { Some(l) => format!("(BOk {})", lc(l)), None => "BOverflow".to_string() };
         let ures = |r: &Option<UpperBound>| match r { Some(u) => format!("(BOk {})", uc(u)), None => "BOverflow".to_string() };
-        cw.push(format!("(({}, {}, {}, {}, {}), ({}, {}, {}, {}), ({}, {}, {}, {}))",
+        cw.push(format!("CNum (({}, {}, {}, {}, {}), ({}, {}, {}, {}), ({}, {}, {}, {}))",
             lc(&l1), lc(&l2), uc(&u1), uc(&u2), zc(&t),
             ord(l1.cmp(&l2)), ord(u1.cmp(&u2)), lres(&ladd), ures(&uadd),
             match &ltake { Ok(l) => format!("(BOk {})", lc(l)), Err(_) => "BPanic".into() },
             match &utake { Ok(Ok(u)) => format!("(BOk {})", uc(u)), Ok(Err(_)) => "BTakeCannotBeSatisfied".into(), Err(_) => "BPanic".into() },
             lc(&lcon), uc(&ucon)));
     }
+    // ---- id-set stream: ResourceBounds::add / take / handle_assertion ----
+    for i in 0..args.cases / 2 {
+        let mut rng = root.fork(1_000_000 + i as u64);
+        // two universes that overlap a little, so that DuplicateNonFungibleId occurs but is not the norm
+        let u1: Vec<u64> = (0..7).collect(); let u2: Vec<u64> = if rng.chance(1, 4) { (4..11).collect() } else { (10..17).collect() };
+        let (g1, g2) = (gen_general(&mut rng, &u1), gen_general(&mut rng, &u2));
+        let ga = gen_general(&mut rng, &u1); // an assertion on the first balance
+        let (b1, b2, ba) = match (ResourceBounds::new_for_manifest_constraint(&ManifestResourceConstraint::General(g1.clone())),
+                                  ResourceBounds::new_for_manifest_constraint(&ManifestResourceConstraint::General(g2.clone())),
+                                  ResourceBounds::new_for_manifest_constraint(&ManifestResourceConstraint::General(ga.clone()))) { (Ok(a), Ok(b), Ok(c)) => (a, b, c), _ => continue };
+        let x = witness(&mut rng, &b1, 100);
+        let taken: Ids = match &x { Some(x) if rng.chance(4, 5) => { let mut t = x.clone(); rng.shuffle(&mut t); let n = rng.usize_below(t.len() + 1); t.truncate(n); t } _ => gen_ids(&mut rng, &u1, 3) };
+        let t_amt = if rng.chance(1, 10) { dec(-1) } else { dec(rng.below(4) as i128 * scale()) };
+        let radd = { let (a, b) = (b1.clone(), b2.clone()); catch(move || a.add(b)) };
+        let rtake = { let (a, t) = (b1.clone(), idset(&taken)); catch(move || { let mut a = a; a.mut_take(ResourceTakeAmount::NonFungibles(t)).map(|_| a) }) };
+        let rtamt = { let a = b1.clone(); catch(move || { let mut a = a; a.mut_take(ResourceTakeAmount::Amount(t_amt)).map(|_| a) }) };
+        let rass = { let (a, b) = (b1.clone(), ba.clone()); catch(move || a.handle_assertion(b)) };
+        report.case(&format!("{}{}{}{:?}{}", bounds_coq(&b1), bounds_coq(&b2), bounds_coq(&ba), taken, t_amt), true);
+        report.count(match &radd { Ok(Ok(_)) => "ids_add_ok", Ok(Err(_)) => "ids_add_err", Err(_) => "ids_add_panic" });
+        report.count(match &rtake { Ok(Ok(_)) => "ids_take_ok", Ok(Err(_)) => "ids_take_err", Err(_) => "ids_take_panic" });
+        report.count(match &rass { Ok(Ok(_)) => "ids_assert_ok", Ok(Err(_)) => "ids_assert_err", Err(_) => "ids_assert_panic" });
+        // ---- oracle: soundness on concrete balances ----
+        let input = json!({"b1": bounds_coq(&b1), "b2": bounds_coq(&b2), "assertion": bounds_coq(&ba), "taken": taken, "x": x});
+        for r in [&radd, &rtake, &rtamt, &rass] { if let Err(p) = r { report.oracle_failure(i, "", &format!("ResourceBounds operation panicked: {}", p), input.clone()); } }
+        if let Some(x) = &x {
+            if let (Some(y), Ok(Ok(sum))) = (witness(&mut rng, &b2, 200), &radd) {
+                if !y.iter().any(|i| x.contains(i)) {
+                    let mut xy = x.clone(); xy.extend(y.iter().cloned());
+                    if as_constraint(sum).validate_non_fungible_ids(&idset(&xy)).is_err() { report.oracle_failure(i, "", &format!("add unsound: {:?} ++ {:?} outside {}", x, y, bounds_coq(sum)), input.clone()); }
+                    report.count("ids_add_soundness_checked");
+                }
+            }
+            if taken.iter().all(|t| x.contains(t)) {
+                let rest: Ids = x.iter().cloned().filter(|i| !taken.contains(i)).collect();
+                match &rtake {
+                    Ok(Ok(r)) => { if as_constraint(r).validate_non_fungible_ids(&idset(&rest)).is_err() { report.oracle_failure(i, "", &format!("take unsound: {:?} minus {:?} outside {}", x, taken, bounds_coq(r)), input.clone()); } report.count("ids_take_soundness_checked"); }
+                    Ok(Err(_)) => report.count("ids_take_rejected_although_feasible"), // incompleteness (not part of the property); counted
+                    Err(_) => {}
+                }
+            }
+            if as_constraint(&ba).validate_non_fungible_ids(&idset(x)).is_ok() {
+                match &rass {
+                    Ok(Ok(r)) => { if as_constraint(r).validate_non_fungible_ids(&idset(x)).is_err() { report.oracle_failure(i, "", &format!("handle_assertion unsound: {:?} outside {}", x, bounds_coq(r)), input.clone()); } report.count("ids_assert_soundness_checked"); }
+                    Ok(Err(_)) => { report.count("ids_assert_rejected_although_satisfied"); if report.notes.len() < 3 { report.notes.push(format!("assertion rejected although the sample balance {:?} satisfies bounds {} and assertion {}", x, bounds_coq(&b1), bounds_coq(&ba))); } }
+                    Err(_) => {}
+                }
+            }
+        }
+        cw.push(format!("CIds {} {} {} {} {} {} {} {} {}", bounds_coq(&b1), bounds_coq(&b2), bounds_coq(&ba), ids_coq(&taken), zc(&t_amt), gres_coq(&radd), gres_coq(&rtake), gres_coq(&rtamt), gres_coq(&rass)));
+    }
     let n = args.cases as u64;
+    report.floor("ids_add_soundness_checked", n / 40);
+    report.floor("ids_take_soundness_checked", n / 40);
+    report.floor("ids_assert_ok", n / 40);
     report.floor("add_soundness_checked", n / 10);
     report.floor("take_soundness_checked", n / 20);
     report.floor("upper_take_unsatisfiable", n / 50);
